@@ -3947,6 +3947,12 @@ impl<'a> Parser<'a> {
             return self.parse_primary_type();
         }
 
+        // Abstract constructor type: abstract new (...args: any[]) => T
+        if self.check(&TokenKind::Abstract) && self.peek_is(&TokenKind::New) {
+            self.advance();
+            return self.parse_primary_type();
+        }
+
         match &self.current.kind {
             // keyof operator: keyof T
             TokenKind::Keyof => {
